@@ -55,13 +55,250 @@ pub mod collections
     pub use std::collections::*;
 }
 
+/*  Native build (the replay crate): real OS threads and real std channels, behind a
+    scheduler that is OFF by default (everything passes straight through to std).  When
+    a replay turns it on, exactly one thread holds the baton at any time and the baton
+    changes hands only at the points where threads touch shared protocol state (thread
+    start / end / join, send, recv, receiver drop), chosen by a seeded policy -- so a
+    schedule-dependent counterexample of the protocol engine can be shown on the real
+    build() and shown again. */
 #[cfg(not(kani))]
-pub use std::thread;
+pub mod sched
+{
+    use std::sync::{Mutex, Condvar};
+    use std::cell::Cell;
+
+    pub struct S
+    {
+        pub enabled : bool,
+        pub cur : usize,
+        pub st : Vec<u8>,           // 0 runnable, 1 waits for a packet, 2 waits for a thread to end, 3 ended
+        pub wait : Vec<usize>,
+        pub chan_q : Vec<usize>,
+        pub chan_sdrop : Vec<bool>,
+        pub policy : u64,           // 0 lowest id first, 1 highest id first, otherwise seed of a random choice
+        pub rng : u64,
+        pub deadlock : bool,
+        pub switches : u64,
+    }
+
+    pub static STATE : Mutex<S> = Mutex::new(S { enabled : false, cur : 0, st : Vec::new(), wait : Vec::new(), chan_q : Vec::new(),
+        chan_sdrop : Vec::new(), policy : 0, rng : 0, deadlock : false, switches : 0 });
+    pub static CV : Condvar = Condvar::new();
+    thread_local! { pub static TID : Cell<usize> = Cell::new(0); }
+
+    pub fn me() -> usize { TID.with(|t| t.get()) }
+
+    pub fn start(policy : u64)
+    {
+        let mut s = STATE.lock().unwrap();
+        *s = S { enabled : true, cur : 0, st : vec![0], wait : vec![0], chan_q : Vec::new(), chan_sdrop : Vec::new(), policy : policy,
+            rng : policy.wrapping_mul(0x9E3779B97F4A7C15) | 1, deadlock : false, switches : 0 };
+    }
+
+    /*  -> (deadlocked, number of baton changes) */
+    pub fn stop() -> (bool, u64)
+    {
+        let mut s = STATE.lock().unwrap();
+        s.enabled = false;
+        CV.notify_all();
+        (s.deadlock, s.switches)
+    }
+
+    pub fn enabled() -> bool { STATE.lock().unwrap().enabled }
+
+    fn can_run(s : &S, t : usize) -> bool
+    {
+        match s.st[t]
+        {
+            0 => true,
+            1 => s.chan_q[s.wait[t]] > 0 || s.chan_sdrop[s.wait[t]],
+            2 => s.st[s.wait[t]] == 3,
+            _ => false,
+        }
+    }
+
+    fn pick(s : &mut S)
+    {
+        let cands : Vec<usize> = (0..s.st.len()).filter(|t| can_run(s, *t)).collect();
+        if cands.is_empty()
+        {
+            s.deadlock = true;
+            s.cur = 0;
+            return;
+        }
+        let c = match s.policy
+        {
+            0 => cands[0],
+            1 => cands[cands.len() - 1],
+            _ =>
+            {
+                s.rng ^= s.rng << 13; s.rng ^= s.rng >> 7; s.rng ^= s.rng << 17;
+                cands[(s.rng % cands.len() as u64) as usize]
+            }
+        };
+        if c != s.cur { s.switches += 1; }
+        s.cur = c;
+        s.st[c] = 0;
+    }
+
+    /*  give the baton away (possibly to myself) and wait until it comes back; state 0 = just a yield */
+    pub fn pass(state : u8, on : usize)
+    {
+        let t = me();
+        let mut s = STATE.lock().unwrap();
+        if !s.enabled { return; }
+        s.st[t] = state;
+        s.wait[t] = on;
+        pick(&mut s);
+        CV.notify_all();
+        while s.enabled && s.cur != t && !(s.deadlock && t == 0)
+        {
+            s = CV.wait(s).unwrap();
+        }
+        if s.enabled && s.deadlock && t == 0
+        {
+            drop(s);
+            panic!("deadlock: every thread waits (main in join, workers for packets that no running thread will send)");
+        }
+    }
+
+    pub fn new_thread() -> Option<usize>
+    {
+        let mut s = STATE.lock().unwrap();
+        if !s.enabled { return None; }
+        s.st.push(0);
+        s.wait.push(0);
+        Some(s.st.len() - 1)
+    }
+
+    pub fn wait_turn(t : usize)
+    {
+        TID.with(|c| c.set(t));
+        let mut s = STATE.lock().unwrap();
+        while s.enabled && s.cur != t
+        {
+            s = CV.wait(s).unwrap();
+        }
+    }
+
+    pub struct EndGuard(pub usize);
+    impl Drop for EndGuard
+    {
+        fn drop(&mut self)
+        {
+            let mut s = STATE.lock().unwrap();
+            if !s.enabled { return; }
+            s.st[self.0] = 3;
+            pick(&mut s);
+            CV.notify_all();
+        }
+    }
+
+    pub fn new_channel() -> Option<usize>
+    {
+        let mut s = STATE.lock().unwrap();
+        if !s.enabled { return None; }
+        s.chan_q.push(0);
+        s.chan_sdrop.push(false);
+        Some(s.chan_q.len() - 1)
+    }
+
+    pub fn sent(c : usize) { let mut s = STATE.lock().unwrap(); if s.enabled && c < s.chan_q.len() { s.chan_q[c] += 1; } }
+    pub fn received(c : usize) { let mut s = STATE.lock().unwrap(); if s.enabled && c < s.chan_q.len() && s.chan_q[c] > 0 { s.chan_q[c] -= 1; } }
+    pub fn sender_dropped(c : usize) { let mut s = STATE.lock().unwrap(); if s.enabled && c < s.chan_sdrop.len() { s.chan_sdrop[c] = true; } }
+}
+
+#[cfg(not(kani))]
+pub mod thread
+{
+    use super::sched;
+
+    pub struct JoinHandle<T>
+    {
+        inner : std::thread::JoinHandle<T>,
+        tid : Option<usize>,
+    }
+
+    impl<T> JoinHandle<T>
+    {
+        pub fn join(self) -> std::thread::Result<T>
+        {
+            if let Some(t) = self.tid { sched::pass(2, t); }
+            self.inner.join()
+        }
+    }
+
+    pub fn spawn<F, T>(f : F) -> JoinHandle<T>
+    where F : FnOnce() -> T, F : Send + 'static, T : Send + 'static
+    {
+        match sched::new_thread()
+        {
+            None => JoinHandle { inner : std::thread::spawn(f), tid : None },
+            Some(t) =>
+            {
+                let inner = std::thread::spawn(move ||
+                {
+                    sched::wait_turn(t);
+                    let _guard = sched::EndGuard(t);
+                    f()
+                });
+                sched::pass(0, 0);
+                JoinHandle { inner : inner, tid : Some(t) }
+            }
+        }
+    }
+}
 
 #[cfg(not(kani))]
 pub mod mpsc
 {
-    pub use std::sync::mpsc::*;
+    pub use std::sync::mpsc::{SendError, RecvError};
+    use super::sched;
+
+    pub struct Sender<T> { inner : std::sync::mpsc::Sender<T>, cid : Option<usize> }
+    pub struct Receiver<T> { inner : std::sync::mpsc::Receiver<T>, cid : Option<usize> }
+
+    pub fn channel<T>() -> (Sender<T>, Receiver<T>)
+    {
+        let (s, r) = std::sync::mpsc::channel();
+        let cid = sched::new_channel();
+        (Sender { inner : s, cid : cid }, Receiver { inner : r, cid : cid })
+    }
+
+    impl<T> Sender<T>
+    {
+        pub fn send(&self, t : T) -> Result<(), SendError<T>>
+        {
+            if self.cid.is_some() { sched::pass(0, 0); }
+            let r = self.inner.send(t);
+            if let (Some(c), true) = (self.cid, r.is_ok()) { sched::sent(c); }
+            /*  and again after it: the receiver may be the next to run, before the sender's next statement */
+            if self.cid.is_some() { sched::pass(0, 0); }
+            r
+        }
+    }
+
+    impl<T> Receiver<T>
+    {
+        pub fn recv(&self) -> Result<T, RecvError>
+        {
+            if let Some(c) = self.cid { sched::pass(1, c); }
+            let r = self.inner.recv();
+            if let (Some(c), true) = (self.cid, r.is_ok()) { sched::received(c); }
+            r
+        }
+    }
+
+    impl<T> Drop for Sender<T>
+    {
+        fn drop(&mut self) { if let Some(c) = self.cid { sched::sender_dropped(c); } }
+    }
+
+    impl<T> Drop for Receiver<T>
+    {
+        fn drop(&mut self) { if self.cid.is_some() && !std::thread::panicking() { sched::pass(0, 0); } }
+    }
 }
 
 #[cfg(kani)]
